@@ -492,7 +492,7 @@ class StopCont:
 # the REAL-lane scenario (runs in vmon.realchild)
 # --------------------------------------------------------------------------
 
-STALL = 25.0     # a call is hung when it has not returned and no worker logged anything for this long
+STALL = 15.0     # a call is hung when it has not returned and no worker logged anything for this long
 HARD = 200.0     # absolute cap per call
 
 
@@ -545,6 +545,8 @@ def sc_calls(params, obs, save):
     pool = Pool(**kw)
     pids = [w.pid for w in pool._pool]
     obs['worker_pids'] = pids
+    # warm-up (not judged): workers of a spawn / forkserver pool may still be importing
+    obs['warmup'] = _value_outcome(lambda: pool.apply_async(os.getpid).get(240), False)[0]
     obs['results'] = {}
     obs['in_progress'] = None
     obs['aborted_at'] = None
